@@ -23,6 +23,9 @@ BUILTIN_CONTAINER_METHODS = {
 }
 
 
+SINK_COLLIDING = {"write", "remove", "move", "create", "close"}
+
+
 @dataclass
 class CallSite:
     caller: str
@@ -195,6 +198,11 @@ class CallGraph:
 
     def _byname(self, name: str, call: ast.Call) -> List[str]:
         if name.startswith("__") and name.endswith("__"):
+            return []
+        # method names of str / list / dict / set / file / re objects: a by-name edge from such a call to a rope
+        # method of the same name is almost always spurious (pattern.search -> AutoImport.search).  The names that
+        # are also effect sinks (write, remove, move, ...) are kept; C09 filters them by receiver evidence.
+        if name in BUILTIN_CONTAINER_METHODS and name not in SINK_COLLIDING:
             return []
         return [m.qualname for m in self.methods_by_name.get(name, []) if self._arity_ok(m, call)]
 
